@@ -66,6 +66,7 @@ def derive_all(l):
     yield 'to_slice.to_cell', lambda: l.to_slice().to_cell()
     yield 'Slice.from_cell.to_cell', lambda: Slice.from_cell(l).to_cell()
     yield 'to_builder.end_cell', lambda: l.to_builder().end_cell()
+    yield 'to_builder.to_cell', lambda: l.to_builder().to_cell()
     yield 'store_cell', lambda: Builder().store_cell(l).end_cell()
     yield 'store_slice', lambda: Builder().store_slice(l.begin_parse()).end_cell()
     yield 'slice.copy.to_cell', lambda: l.begin_parse().copy().to_cell()
@@ -189,12 +190,12 @@ def check(case):
                     return Fail(f.signature, f'{f.detail} (slice of a cell with {nb} bits / {nr} refs after reading {j} bits, {q} refs)')
     # the builder a cell came from keeps being used (cells sharing a prefix): the finished cell must stay what it was
     pos = {id(c): i for i, c in enumerate(cells)}
-    for k in picks:
+    for pi, k in enumerate(picks):
         r = cells[k]
         b = Builder().store_bits(r.bits)
         for x in r.refs:
             b.store_ref(lib[pos[id(x)]])
-        ok, first = call(b.end_cell)
+        ok, first = call(b.to_cell if pi % 2 else b.end_cell)            # to_cell() is the other spelling of end_cell()
         if not ok:
             return Fail('construction-raises/builder', f'{exc_sig(first)}: {first!r}')
         more_bits = '1' if len(r.bits) < 1023 else ''
@@ -202,7 +203,7 @@ def check(case):
         ok, e = call(lambda: (b.store_bits(more_bits) if more_bits else None, b.store_ref(lib[0]) if more_ref else None))
         if not ok:
             return Fail('builder-reuse/store-after-end_cell-raises', f'{exc_sig(e)}: {e!r}')
-        ok, second = call(b.end_cell)
+        ok, second = call(b.end_cell if pi % 2 else b.to_cell)
         if not ok:
             return Fail('builder-reuse/second-end_cell-raises', f'{exc_sig(second)}: {second!r}')
         f = node_problem(r, first, 'builder-reused/first-cell')
@@ -320,6 +321,43 @@ def check_eq_levels(case):
     return None
 
 
+def check_over_exotic(case):
+    """ordinary LEVEL-0 cells whose children are Merkle proofs / updates over trees with pruned branches: their hash is still the
+    standard one - d1 d2, data, the children's level-0 depths and level-0 hashes (which is where the level masks of the cells
+    below come in: an ordinary cell under the Merkle cells with two pruned children of incomparable masks, ...)"""
+    cells = dag.build_ref(case['spec'])
+    for route in ('builder', 'tvm'):
+        ok, lib = call(dag.lib_from_ref, cells, route)
+        if not ok:
+            return None                                   # constructing exotic cells is C02's business
+        for k, (r, l) in enumerate(zip(cells, lib)):
+            if case['spec'][k]['k'] == 'o' and r.mask() == 0 and any(c.special for c in r.refs):
+                f = node_problem(r, l, f'{route}/ordinary-level-0-over-exotic-children')
+                if f:
+                    return Fail(f.signature, f'node {k}: {f.detail}')
+    return None
+
+
+def enum_over_exotic(tier):
+    seed = 0
+    for m1 in range(1, 8):
+        for m2 in range(0, 8):
+            seed += 1
+            base = [{'k': 'P', 'm': m1, 's': '%08x' % seed, 'd': [1, 2, 3]}]
+            base.append({'k': 'P', 'm': m2, 's': '%08x' % (seed + 500), 'd': [5]} if m2 else {'k': 'o', 'b': [9, 2, seed], 'r': []})
+            x = {'k': 'o', 'b': [13, 2, seed], 'r': [0, 1]}
+            # three Merkle proofs above x bring every mask down to 0; g sits on top
+            yield {'spec': base + [x, {'k': 'mp', 'r': 2}, {'k': 'mp', 'r': 3}, {'k': 'mp', 'r': 4}, {'k': 'o', 'b': [21, 2, seed], 'r': [5]}]}
+            # Merkle updates pairing x with a sibling, then proofs
+            y = {'k': 'o', 'b': [7, 2, seed + 1], 'r': [1, 0, 1]}
+            yield {'spec': base + [x, y, {'k': 'mu', 'r': [2, 3]}, {'k': 'mu', 'r': [4, 4]}, {'k': 'mp', 'r': 5},
+                                   {'k': 'o', 'b': [1023, 2, seed], 'r': [6, 6]}, {'k': 'o', 'b': [0, 0, 0], 'r': [7, 6]}]}
+
+
+def strat_over_exotic(tier):
+    return st.fixed_dictionaries({'spec': dag.st_exotic_dag(max_nodes=14, max_len=64)})
+
+
 def strat_eq_levels(tier):
     return st.fixed_dictionaries({'spec': dag.st_ord_dag(max_nodes=10, max_len=64), 't': st.integers(0, 9), 'x': st.integers(0, 2)})
 
@@ -426,6 +464,12 @@ SUBCHECKS = [
     Sub('deep-chains', check, enum=enum_chains, classify=classify, nontrivial=nt, shards=(8, 8), case_cpu_s=120,
         note='chains and doubling ladders of depth 1000..1023'),
     Sub('dags', check, strategy=strat, classify=classify, nontrivial=nt, n=(2000, 60000), shards=(16, 32)),
+    Sub('ordinary-over-merkle-over-pruned', check_over_exotic, enum=enum_over_exotic, shards=(4, 4), exhaustive=True,
+        classify=lambda c: ['kinds=' + ''.join(sorted({n['k'] for n in c['spec']}))], nontrivial=lambda c: True,
+        note='level-0 ordinary cells on top of 3 Merkle proofs / 2 Merkle updates + 1 proof over an ordinary cell whose two pruned '
+             'children carry every pair of masks 1..7 x 0..7'),
+    Sub('ordinary-over-exotic-random', check_over_exotic, strategy=strat_over_exotic, n=(400, 10000), shards=(4, 16),
+        classify=lambda c: ['nodes=%d' % len(c['spec'])], nontrivial=lambda c: True),
     Sub('equality-across-levels', check_eq_levels, strategy=strat_eq_levels, n=(600, 10000), shards=(4, 16),
         classify=lambda c: ['nodes=%d' % len(c['spec'])], nontrivial=lambda c: True,
         note='a DAG, the pruned branch of one of its nodes and the clones of that node\'s ancestors over the pruned branch'),
